@@ -28,6 +28,8 @@ def marked(r, v, i, kinds=None, shared=None):
         pool += [("close", 0)]             # only on request: finish a task (changes what prune would take)
     if len(v.tasks) >= 2:
         pool += [("sequence", 8)]
+    if getattr(v, "deps", None):
+        pool += [("sequence_rm", 6)]          # take an existing edge away (what is ready changes; a later cycle test has to see it)
     if v.epics:
         pool += [("new_in_epic", 6)]
         if v.tasks:
@@ -77,6 +79,9 @@ def marked(r, v, i, kinds=None, shared=None):
             shared["pair"] = (a, b)
         a, b = shared["pair"]
         return {"cmd": "sequence", "args": [a, b] if i == 0 else [b, a]}, ag, k
+    if k == "sequence_rm":
+        x, y = r.pick(v.deps)            # x waits for y
+        return {"cmd": "sequence", "args": ["rm", y, x]}, ag, k
     if k == "close":
         t = r.pick(open_)
         # done needs a claimant history for some states; canceled is reachable from every open state
@@ -102,6 +107,7 @@ def owner_of(ev, cmds):
         if ev["type"] in ("new_task", "new_epic", "title") and str(d.get("title", "")).startswith(tag + " "): owners.append(i)
         elif ev["type"] in ("claim", "tombstone") and d.get("agent_id") == ag: owners.append(i)
         elif ev["type"] == "link" and req["cmd"] == "sequence" and [d.get("to_id"), d.get("from_id")] == req["args"]: owners.append(i)
+        elif ev["type"] == "unlink" and req["cmd"] == "sequence" and ["rm", d.get("to_id"), d.get("from_id")] == req["args"]: owners.append(i)
     return owners[0] if len(owners) == 1 else None
 
 
